@@ -121,6 +121,8 @@ func (e *Engine) RunRoot(fn *ssa.Function) (err error) {
 		e.checkIfaceCallsOnly(s, fn, fr.contract)
 		e.checkDirectCallsOnly(s, fn, fr.contract)
 		e.checkNeverCalls(s, fn, fr.contract)
+		e.checkAppendOnly(s, fn, fr.contract)
+		e.checkNoEarlyExit(s, fn, fr.contract)
 		e.checkSpawnNeverWrites(s, fr, fn, fr.contract)
 		e.checkGuarded(s, fn, fr.contract)
 		e.checkOnlyCallers(s, fn, fr.contract)
